@@ -360,6 +360,10 @@ class Verdict:
                 print(f"VIOLATION property={self.pid} replay={path}")
                 print(f"  {w}")
             return 1
+        if not self.ev.cov["evaluations"] or not self.ev.cov["distinct_nontrivial"]:
+            # vacuity guard: "held on everything explored" must not be said of nothing (a generator that silently
+            # produced no non-trivial case is tool trouble, exit 2)
+            raise ToolError(f"vacuous run: evaluations={self.ev.cov['evaluations']} distinct_nontrivial={self.ev.cov['distinct_nontrivial']}")
         print(f"OK property={self.pid} tier={self.ev.tier} evaluations={self.ev.cov['evaluations']} "
               f"states={self.ev.cov['states']} wall={time.time()-self.ev.t0:.1f}s")
         return 0
